@@ -240,8 +240,10 @@ theorem ni_stepOp {b : Bag} (h : NI b) (hr : Rect b) (op : Op) (hne : ¬ NameEdi
     · exact h
     · split
       · exact h
-      · rename_i r hrr
-        obtain ⟨k, i, n, _⟩ := compressBag_fields hrr
-        exact h.keys k i n
+      · split
+        · exact h
+        · rename_i r hrr
+          obtain ⟨k, i, n, _⟩ := compressBag_fields hrr
+          exact h.keys k i n
 
 end Gv.Proofs.BagAbs
